@@ -12,7 +12,7 @@ how far the source has been consumed: an adaptor whose `n`-step output is a func
 arbitrary, so every statement covers erroring callbacks.
 `Permits.covers p k`: the search permits `p` suffice for `k` elements (always, when no limit is set).
 -/
-import XrayProofs.Gen
+import XrayProofs.GenConsumers
 namespace XrayModel.C16
 open XrayModel.Gen
 
@@ -201,5 +201,119 @@ theorem zip_ends_with_first (L : Option Nat) (a a1 b : It) (ja : Nat)
 /-- the witness of the alignment defect: an error in the first part no longer shifts the second -/
 example : outs none 6 ((G.zip [.map (.fromArr [.int 0, .int 1]) (fun | .val (.int 0) => .err | x => x),
     .fromCount none]).start none) = [.err, .val (.tup [.int 1, .int 1])] := by rfl
+
+
+/-! ### consumers against the denoted list (a finite generator denoting the values `vs`, a budget that covers them) -/
+
+theorem iter_den_of_den (L : Option Nat) (g : G) (vs : List V) (h : Den L (g.start L) (vs.map Item.val))
+    (hc : (Permits.ofLimit L).covers vs.length) : Den L (g.iter L) (vs.map Item.val) :=
+  den_budget _ h (by simpa using hc)
+
+/-- `len` is the length -/
+theorem len_den (L : Option Nat) (g : G) (vs : List V) (h : Den L (g.start L) (vs.map Item.val))
+    (hc : (Permits.ofLimit L).covers vs.length) : ∃ fuel, len L fuel g = .ok vs.length := by
+  obtain ⟨n, h1, h2⟩ := iter_den_of_den L g vs h hc
+  exact ⟨n, by simpa [len] using lenLoop_den L n _ vs 0 h1 h2⟩
+
+/-- `last` is the last element, an error value for the empty generator -/
+theorem last_den (L : Option Nat) (g : G) (vs : List V) (h : Den L (g.start L) (vs.map Item.val))
+    (hc : (Permits.ofLimit L).covers vs.length) :
+    ∃ fuel, last L fuel g = (match vs.getLast? with | some v => .ok v | none => .err) := by
+  obtain ⟨n, h1, h2⟩ := iter_den_of_den L g vs h hc
+  refine ⟨n, ?_⟩
+  rw [last, lastLoop_den L n _ vs none h1 h2, lastSpec_eq]
+  cases vs.getLast? <;> rfl
+
+/-- `get(i)` is the element at index `i`, an error value for a negative or too large index -/
+theorem get_den (L : Option Nat) (g : G) (vs : List V) (h : Den L (g.start L) (vs.map Item.val))
+    (hc : (Permits.ofLimit L).covers vs.length) (idx : Int) :
+    ∃ fuel, get L fuel g idx =
+      (if idx < 0 then .err else match vs[idx.toNat]? with | some v => .ok v | none => .err) := by
+  obtain ⟨n, h1, h2⟩ := iter_den_of_den L g vs h hc
+  refine ⟨n, ?_⟩
+  unfold Gen.get
+  split
+  · rfl
+  · exact getLoop_den L n _ vs _ h1 h2
+
+/-- `nth(k, p)` is the `k`-th element satisfying `p`, `none` when there are fewer -/
+theorem nth_den (L : Option Nat) (g : G) (vs : List V) (q : V → Bool) (k : Nat)
+    (h : Den L (g.start L) (vs.map Item.val)) (hc : (Permits.ofLimit L).covers vs.length) :
+    ∃ fuel, nth L fuel g k (pureP q) = .ok ((vs.filter q)[k]?) := by
+  obtain ⟨n, h1, h2⟩ := iter_den_of_den L g vs h hc
+  refine ⟨n, ?_⟩
+  have hk : ¬ ((k : Int) < 0) := by omega
+  simp only [nth, hk, ↓reduceIte, Int.toNat_natCast]
+  exact nthLoop_den L q n _ vs k h1 h2
+
+/-- the permit accounting of `nth`: every inspected element takes a permit of the consumer's budget; a search
+that finds nothing among the first `l` elements of the counter ends in the MaximumSearch violation -/
+theorem nth_takes_permits (l k : Nat) :
+    nth (some l) (l + 2) (.fromCount none) k (fun _ => .f) = .viol := by
+  have hk : ¬ ((k : Int) < 0) := by omega
+  simp only [nth, hk, ↓reduceIte, Int.toNat_natCast, G.iter, G.start, Permits.ofLimit]
+  exact nthLoop_permits (some l) k l 0
+
+/-- `reduce(init, f)` is `aggregate(init, f).last()` (`include.rs:210`): for a finite generator the last state of
+the scan — the fold -/
+theorem reduce_den (L : Option Nat) (g : G) (init : Item) (f : F2) (ws : List V)
+    (h : Den L ((G.aggregate g init f).start L) (ws.map Item.val))
+    (hc : (Permits.ofLimit L).covers ws.length) :
+    ∃ fuel, reduce L fuel g init f = (match ws.getLast? with | some v => .ok v | none => .err) :=
+  last_den L (.aggregate g init f) ws h hc
+
+/-! ### library compositions -/
+
+/-- `distinct` (with_count / filter / map): lock-step over its source, and on values it keeps exactly the
+elements that match none of the elements kept before -/
+theorem iter_den_distinct (L : Option Nat) (eq : V → V → Bool) (n : Nat) (g : G)
+    (hc : (Permits.ofLimit L).covers (outs L n (g.start L)).length) :
+    outs L n ((G.distinct g eq).start L) =
+      ((wcItems eq [] (outs L n (g.start L))).filterMap (filt firstP)).map (mapItem projF) := by
+  have hlen : (outs L n ((G.withCount g eq).start L)).length ≤ (outs L n (g.start L)).length := by
+    rw [iter_den_withCount]
+    generalize outs L n (g.start L) = xs
+    generalize ([] : List (V × Nat)) = seen
+    induction xs generalizing seen with
+    | nil => simp [wcItems]
+    | cons x xs ih => cases x <;> simp [wcItems, ih]
+  unfold G.distinct
+  rw [iter_den_map, iter_den_filter _ _ _ _ (covers_mono hc hlen), iter_den_withCount]
+  rfl
+
+theorem distinct_values (eq : V → V → Bool) (vs : List V) :
+    ((wcItems eq [] (vs.map Item.val)).filterMap (filt firstP)).map (mapItem projF) =
+      (dedupBy eq [] vs).map Item.val := by
+  simpa using distinct_list eq vs [] (by simp)
+
+/-- `flatten` of a sequence of finite generators (`reduce([].to_generator(), add)`, `include.rs:1367`) denotes
+the concatenation -/
+theorem flatten_den (L : Option Nat) (gs : List G) (xss : List (List Item))
+    (hl : gs.length = xss.length)
+    (h : ∀ i (h : i < gs.length) (h' : i < xss.length), DenParts L gs[i].parts xss[i]) :
+    Den L ((G.flattenAll gs).start L) xss.flatten := by
+  have hparts := denParts_flatMap L gs xss hl h
+  cases hgs : gs with
+  | nil =>
+    subst hgs
+    cases xss with
+    | nil => simpa [G.flattenAll, G.start] using den_arr_nil L
+    | cons _ _ => simp at hl
+  | cons g gs' =>
+    have hne : gs ≠ [] := by simp [hgs]
+    unfold G.flattenAll
+    rw [← hgs, foldl_mkChain_chain gs _ hne, G.start]
+    have harr : DenParts L (G.fromArr []).parts [] := by
+      have h0 : Den L ((G.fromArr []).start L) [] := by rw [G.start]; exact den_arr_nil L
+      simpa [G.parts] using DenParts.cons h0 DenParts.nil
+    simpa using den_chain_parts L _ _ _ _ (den_arr_nil L) (denParts_append harr hparts)
+
+/-- … but it is not lazy in its *outer* generator: `reduce` over an infinite generator never returns a value,
+whatever is folded (here without a search limit; with one it ends in MaximumSearch) — the known finding
+`lazy:flatten:outer-infinite`, as a theorem about `last ∘ aggregate` -/
+theorem reduce_infinite_never_returns (f : F2) (init : Item) (fuel : Nat) (v : V) :
+    reduce none fuel (.fromCount none) init f ≠ .ok v := by
+  simp only [reduce, last, G.iter, G.start, Permits.ofLimit]
+  exact lastLoop_infinite f fuel 0 init true none v
 
 end XrayModel.C16
